@@ -1,9 +1,10 @@
-\* thorough: every program of nesting depth <= 3, every input choice
+\* thorough: every program of nesting depth <= 2, and of depth 3 with the outermost context in OuterRep; every input choice
 SPECIFICATION Spec
 CONSTANTS
   Depth = 3
   MinDepth = 0
   SynDepth = 2
+  Outer3 <- OuterRep
   MaxIn = 3
 INVARIANTS TypeOK CleanupOnce HandlerFirstMatch NoneLost EscapeIntact FinalOK RejectedNeverRuns
 CHECK_DEADLOCK TRUE
